@@ -125,6 +125,8 @@ class MiscMonitors:
         if len(self.retained) > limit:
             for i, e in enumerate(self.retained):
                 if not e[3]:
+                    # last look before the object leaves the registry
+                    self.c10_one(e, {"k": "evict", "id": -1}, True)
                     self.retained_ids.discard(id(e[1]))
                     del self.retained[i]
                     break
@@ -148,27 +150,38 @@ class MiscMonitors:
         if self.c10_tick % period:
             return
         deep = (self.c10_tick // period) % 5 == 0
-        for e in self.retained:
-            kind, obj, snap = e[0], e[1], e[2]
-            now = self.snapshot_of(kind, obj)
-            self.evals["C10"] += 1
-            if kind in ("transform", "mapping"):
-                ok = self.grew_only(snap[1], now[1])
-                if ok:
-                    e[2] = now
-            else:
-                ok = now == snap
-            if ok and deep and kind == "doc":
-                ok = tk.canon(obj.to_json()) == e[4]
-            if not ok:
-                self.violation("C10", "mutated." + kind, {
-                    "shape": kind, "event": {k: v for k, v in ev.items() if k in ("k", "c", "id", "ops", "kind")},
-                    "before": str(snap)[:600], "after": str(now)[:600]})
-                e[2] = now
-                return
+        # a mutation stays visible, so every event re-examines the pinned singletons, the youngest
+        # objects and a rotating third of the rest; everything is examined again at the end of the
+        # run and before an object leaves the registry
+        n = len(self.retained)
+        phase = self.c10_tick % 3
+        for i, e in enumerate(self.retained):
+            if e[3] or i >= n - 25 or i % 3 == phase or ev.get("k") == "finish":
+                if not self.c10_one(e, ev, deep):
+                    return
         self.count("C10", ("ev", ev["k"], len(self.retained), self.sim.r3[-1]["digest"]),
                    nontrivial=len(self.retained) > 5,
                    sample={"event": ev["k"], "retained_objects": len(self.retained)})
+
+    def c10_one(self, e, ev, deep):
+        kind, obj, snap = e[0], e[1], e[2]
+        now = self.snapshot_of(kind, obj)
+        self.evals["C10"] += 1
+        if kind in ("transform", "mapping"):
+            ok = self.grew_only(snap[1], now[1])
+            if ok:
+                e[2] = now
+        else:
+            ok = now == snap
+        if ok and deep and kind == "doc":
+            ok = tk.canon(obj.to_json()) == e[4]
+        if not ok:
+            e[2] = now
+            self.violation("C10", "mutated." + kind, {
+                "shape": kind, "event": {k: v for k, v in ev.items() if k in ("k", "c", "id", "ops", "kind")},
+                "before": str(snap)[:600], "after": str(now)[:600]})
+            return False
+        return True
 
     @staticmethod
     def grew_only(old, new):
